@@ -132,6 +132,13 @@ class PresGen:
             c = self.mk("named", fields=[Field("ignored", prim("bool"))])
             c.extra_attrs.append(f"#[ts(as = {tsgen.rs_str(ft.rs())})]")
             members["container-as"] = c
+            # ... on an enum, and on an enum without variants (a marker type bound as something else)
+            ce = self.mk("enum", variants=[Variant("Ignored", "unit"), Variant("Also", "newtype", [Field(None, prim("bool"))])])
+            ce.extra_attrs.append(f"#[ts(as = {tsgen.rs_str(ft.rs())})]")
+            members["container-as-enum"] = ce
+            cn = self.mk("enum", variants=[])
+            cn.extra_attrs.append(f"#[ts(as = {tsgen.rs_str(ft.rs())})]")
+            members["container-as-empty-enum"] = cn
             if flat_ok and shape == "named":
                 # flattening a type that is bound `as` F is flattening F
                 q = self.mk("named", fields=[Field("own", prim("i32")), Field("f", Ty("user", item=c), flatten=True)])
